@@ -409,16 +409,19 @@ func (v *FnVerifier) runRoot(fn *ssa.Function, fc *FuncContract) {
 		if !cl.HasTag(v.prop) {
 			continue
 		}
-		var goals []Term
-		for _, ex := range f.exits {
-			env := v.exitEnv(fc, fn, ex)
-			goals = append(goals, Implies(ex.reach, v.trClause(env, cl)))
-		}
 		tag := ""
 		if len(cl.Tags) > 0 {
 			tag = "[" + strings.Join(cl.Tags, ",") + "]"
 		}
-		v.oblige("post", fmt.Sprintf("%s/post#%d%s", fc.Key, cl.Ord, tag), cl.Tags, TTrue, And(goals...), fmt.Sprintf("%s:%d", strings.TrimPrefix(cl.File, "/repo/"), cl.Line), cl.Src)
+		// one obligation per return statement (conjunctions over many exits are much harder to solve)
+		for ri, ex := range f.exits {
+			env := v.exitEnv(fc, fn, ex)
+			name := fmt.Sprintf("%s/post#%d%s", fc.Key, cl.Ord, tag)
+			if len(f.exits) > 1 {
+				name += fmt.Sprintf("@r%d", ri)
+			}
+			v.oblige("post", name, cl.Tags, ex.reach, v.trClause(env, cl), fmt.Sprintf("%s:%d (return at %s)", strings.TrimPrefix(cl.File, "/repo/"), cl.Line, v.pos(ex.pos)), cl.Src)
+		}
 	}
 	// ---- frame: one obligation per heap array that changed
 	perArr := map[string][]Term{}
